@@ -614,10 +614,10 @@ func ruleR21b(c *Ctx) *RuleResult {
 			if fn.Pkg == nil || p.RelPkg(fn.Pkg.Pkg.Path()) != "trees/avltree" {
 				continue
 			}
-			if fn.Name() == "rotate" {
+			if fnName(fn) == "rotate" {
 				anchor = fn
 			}
-			paramIdx := fn.Name() == "walk1" || fn.Name() == "bottom"
+			paramIdx := fnName(fn) == "walk1" || fnName(fn) == "bottom"
 			check := func(t *Term) bool {
 				if (t.Op == "do" || t.Op == "call") && strings.HasPrefix(t.Leaf, "trees/avltree.") {
 					id := lastIdent(t.Leaf)
@@ -671,7 +671,7 @@ func ruleR21b(c *Ctx) *RuleResult {
 			if fn.Pkg == nil || p.RelPkg(fn.Pkg.Pkg.Path()) != "trees/btree" {
 				continue
 			}
-			if fn.Name() == "rebalance" {
+			if fnName(fn) == "rebalance" {
 				anchor = fn
 			}
 			for _, g := range c.GC(fn).GCs {
@@ -683,7 +683,7 @@ func ruleR21b(c *Ctx) *RuleResult {
 					n++
 					node, key := noEpoch(args[1]), args[2]
 					okKey := false
-					if fn.Name() == "rebalance" && key.String() == "p:2" {
+					if fnName(fn) == "rebalance" && key.String() == "p:2" {
 						okKey = true // the caller's key travels up unchanged when no separator was taken out
 					}
 					if key.Op == "load" && key.Args[0].Op == "fa" && key.Args[0].Leaf == "Key" {
